@@ -49,12 +49,16 @@ pub mod ffi {
         this: ErasedList,
         idx: u64,
     ) {
-        let idx = idx.try_into().ok();
-        match idx.and_then(|idx| this.get(idx)) {
-            Some(src) => {
-                #[cfg(feature = "verif-hooks")]
-                crate::verif::list_ptr_escaped(src.as_ptr() as usize, 0);
+        let idx: Option<usize> = idx.try_into().ok();
 
+        // The lock is held from the lookup until the clone has finished: the
+        // pointer into the list is only valid until another thread pushes.
+        #[cfg(feature = "verif-hooks")]
+        crate::verif::before_list_lock(&this.0);
+        let raw = this.0.lock().unwrap();
+
+        match idx.and_then(|idx| raw.get(idx)) {
+            Some(src) => {
                 // We got a pointer into the list, clone it into out at the correct alignment
 
                 // To leave this value in a valid state even if a panic happens
@@ -66,9 +70,6 @@ pub mod ffi {
                 // `out` must be a valid RotoOption<T>.
                 unsafe { out.cast::<u8>().write(1) };
 
-                #[cfg(feature = "verif-hooks")]
-                crate::verif::before_list_lock(&this.0);
-                let raw = this.0.lock().unwrap();
                 let size = raw.vtable.size();
                 let alignment = raw.vtable.align();
                 let offset = 1usize.next_multiple_of(alignment);
@@ -100,9 +101,6 @@ pub mod ffi {
                         };
                     }
                 }
-
-                #[cfg(feature = "verif-hooks")]
-                crate::verif::list_ptr_done(src.as_ptr() as usize);
 
                 // SAFETY: 0 is the discriminant of `Some`. We asserted that
                 // `out` must be a valid RotoOption<T>.
@@ -558,12 +556,6 @@ impl ErasedList {
         drop(raw);
 
         new
-    }
-
-    pub fn get(&self, idx: usize) -> Option<NonNull<T>> {
-        #[cfg(feature = "verif-hooks")]
-        crate::verif::before_list_lock(&self.0);
-        self.0.lock().unwrap().get(idx)
     }
 
     /// Check whether a list contains a value.
